@@ -96,6 +96,36 @@ macro_rules! rank_harness {
         }
     };
 }
-rank_harness!(bounded_vrank_len1, 1);
-rank_harness!(bounded_vrank_len2, 2);
-rank_harness!(bounded_vrank_len3, 3);
+rank_harness!(rank_bounded_len1, 1);
+rank_harness!(rank_bounded_len2, 2);
+rank_harness!(rank_bounded_len3, 3);
+
+// ---- C13, bounded: forward / backward fill (proved in the Verus unit `map`; backstop for rewrites that leave its anchors): each null
+// becomes the nearest earlier / later non-null element, else the default, else stays null; non-null elements are untouched
+#[kani::proof]
+#[kani::unwind(6)]
+fn bounded_ffill_bfill() {
+    let (a, n) = any_series();
+    let fill: Option<f64> = if kani::any() { Some(7.0) } else { None };
+    let v: Vec<f64> = a.to_vec();
+    let mut f = v.titer().ffill(fill);
+    let mut b = v.titer().bfill(fill);
+    let mut i = 0usize;
+    while i < n {
+        let (gf, gb) = (f.next(), b.next());
+        assert!(gf.is_some() && gb.is_some());
+        let (mut wf, mut wb) = (f64::NAN, f64::NAN);
+        if !a[i].is_nan() { wf = a[i]; wb = a[i]; } else {
+            let mut j = i; let mut found = false;
+            while j > 0 { j -= 1; if !a[j].is_nan() { wf = a[j]; found = true; break; } }
+            if !found { if let Some(d) = fill { wf = d; } }
+            j = i + 1; found = false;
+            while j < n { if !a[j].is_nan() { wb = a[j]; found = true; break; } j += 1; }
+            if !found { if let Some(d) = fill { wb = d; } }
+        }
+        assert!(same(gf.unwrap(), wf));
+        assert!(same(gb.unwrap(), wb));
+        i += 1;
+    }
+    assert!(f.next().is_none() && b.next().is_none());
+}
